@@ -90,9 +90,11 @@ type genCfg struct {
 	monotone  bool
 	scribble  bool
 	adversary bool // adversarial strings in maps (c11)
+	quoteKeys bool // map keys containing quotes / brackets (JSON-path translation, F4b)
 }
 
 type gen struct {
+	pool   [][2]string // (key, value) pairs that were put into param / meta maps
 	r      *rand.Rand
 	cfg    genCfg
 	known  []string
@@ -126,11 +128,69 @@ func (g *gen) genMap() map[string]string {
 	keys := []string{"k", "K", "key", "a"}
 	if g.cfg.adversary {
 		keys = []string{"k", "K", "key", "a", "a.b", "x y", "é", "%", "_", "k1"}
+		if g.cfg.quoteKeys {
+			keys = append(keys, "k'q", "k\"q", "[0]", "a[1]")
+		}
 	}
 	for i := 0; i < n; i++ {
-		m[g.pick(keys)] = g.pick(g.strPool())
+		k, v := g.pick(keys), g.pick(g.strPool())
+		m[k] = v
+		g.pool = append(g.pool, [2]string{k, v})
 	}
 	return m
+}
+
+func swapCase(s string) string {
+	b := []byte(s)
+	for i, c := range b {
+		switch {
+		case c >= 'a' && c <= 'z':
+			b[i] = c - 32
+		case c >= 'A' && c <= 'Z':
+			b[i] = c + 32
+		}
+	}
+	return string(b)
+}
+
+// derive a matcher operand from a stored value: the value itself, a piece of it, a case variant,
+// or a LIKE-wildcard look-alike
+func (g *gen) deriveValue(v string) string {
+	r := []rune(v)
+	switch g.r.Intn(9) {
+	case 0, 1:
+		return v
+	case 2:
+		if len(r) > 0 {
+			return string(r[:1+g.r.Intn(len(r))])
+		}
+	case 3:
+		if len(r) > 0 {
+			return string(r[g.r.Intn(len(r)):])
+		}
+	case 4:
+		if len(r) > 1 {
+			i := g.r.Intn(len(r))
+			j := i + 1 + g.r.Intn(len(r)-i)
+			return string(r[i:j])
+		}
+	case 5:
+		return swapCase(v)
+	case 6:
+		if len(r) > 0 {
+			i := g.r.Intn(len(r))
+			r2 := append([]rune{}, r...)
+			r2[i] = '_'
+			return string(r2)
+		}
+	case 7:
+		return v + "%"
+	case 8:
+		if len(r) > 0 {
+			return string(r[:len(r)-1]) + "%"
+		}
+	}
+	return v
 }
 
 // schedule time: few distinct values to force ties; sometimes sub-ms parts and zones; rarely zero
@@ -256,7 +316,15 @@ func (g *gen) genMapMatchers() []def.MapMatcher {
 	}
 	for i := range out {
 		var m def.MapMatcher
-		b, _ := json.Marshal(map[string]any{"Key": g.pick(keys), "Value": g.pick(g.strPool()), "MatchType": g.pick(types)})
+		key, val := g.pick(keys), g.pick(g.strPool())
+		if len(g.pool) > 0 && g.r.Intn(10) < 7 {
+			kv := g.pool[g.r.Intn(len(g.pool))]
+			key, val = kv[0], g.deriveValue(kv[1])
+			if g.cfg.adversary && g.r.Intn(8) == 0 {
+				key = swapCase(key)
+			}
+		}
+		b, _ := json.Marshal(map[string]any{"Key": key, "Value": val, "MatchType": g.pick(types)})
 		_ = json.Unmarshal(b, &m)
 		out[i] = m
 	}
@@ -265,48 +333,52 @@ func (g *gen) genMapMatchers() []def.MapMatcher {
 
 func (g *gen) genQuery(rich bool) def.TaskQueryParam {
 	var q def.TaskQueryParam
-	if !rich || g.r.Intn(6) == 0 {
+	if !rich || g.r.Intn(8) == 0 {
 		return q
 	}
-	p := func(n int) bool { return g.r.Intn(100) < n }
-	if p(8) {
-		q.Id = option.Some(g.genId())
+	// number of fields set: mostly one or two, so that queries are not trivially empty
+	k := 1
+	switch x := g.r.Intn(100); {
+	case x < 55:
+		k = 1
+	case x < 80:
+		k = 2
+	case x < 92:
+		k = 3
+	default:
+		k = 4 + g.r.Intn(4)
 	}
-	if p(15) {
-		q.WorkId = option.Some(g.pick([]string{"w", "W", "work", "w2", ""}))
-	}
-	if p(15) {
-		q.Priority = option.Some(g.r.Intn(3) - 1)
-	}
-	if p(20) {
-		q.State = option.Some(def.State(g.pick([]string{"scheduled", "dispatched", "cancelled", "done", "err"})))
-	}
-	if p(10) {
-		q.Err = option.Some(g.pick([]string{"", "boom", "e1"}))
-	}
-	if p(30) {
-		q.Param = option.Some(g.genMapMatchers())
-	}
-	if p(20) {
-		q.Meta = option.Some(g.genMapMatchers())
-	}
-	if p(20) {
-		q.ScheduledAt = option.Some(g.genTimeMatcher())
-	}
-	if p(15) {
-		q.CreatedAt = option.Some(g.genTimeMatcher())
-	}
-	if p(20) {
-		q.Deadline = g.genOptTimeMatcher()
-	}
-	if p(12) {
-		q.CancelledAt = g.genOptTimeMatcher()
-	}
-	if p(12) {
-		q.DispatchedAt = g.genOptTimeMatcher()
-	}
-	if p(12) {
-		q.DoneAt = g.genOptTimeMatcher()
+	// weights: the map matchers and time matchers are the interesting ones
+	fields := []int{0, 1, 2, 3, 4, 5, 5, 5, 5, 6, 6, 6, 7, 7, 8, 8, 9, 9, 10, 11, 12}
+	for i := 0; i < k; i++ {
+		switch fields[g.r.Intn(len(fields))] {
+		case 0:
+			q.Id = option.Some(g.genId())
+		case 1:
+			q.WorkId = option.Some(g.pick([]string{"w", "W", "work", "w2", ""}))
+		case 2:
+			q.Priority = option.Some(g.r.Intn(3) - 1)
+		case 3:
+			q.State = option.Some(def.State(g.pick([]string{"scheduled", "dispatched", "cancelled", "done", "err"})))
+		case 4:
+			q.Err = option.Some(g.pick([]string{"", "boom", "e1"}))
+		case 5:
+			q.Param = option.Some(g.genMapMatchers())
+		case 6:
+			q.Meta = option.Some(g.genMapMatchers())
+		case 7:
+			q.ScheduledAt = option.Some(g.genTimeMatcher())
+		case 8:
+			q.CreatedAt = option.Some(g.genTimeMatcher())
+		case 9:
+			q.Deadline = g.genOptTimeMatcher()
+		case 10:
+			q.CancelledAt = g.genOptTimeMatcher()
+		case 11:
+			q.DispatchedAt = g.genOptTimeMatcher()
+		case 12:
+			q.DoneAt = g.genOptTimeMatcher()
+		}
 	}
 	return q
 }
@@ -333,21 +405,31 @@ func scribbleTask(t def.Task) { scribbleMap(t.Param); scribbleMap(t.Meta) }
 
 // ---------- execution & observation ----------
 
-type runner struct {
-	s       *sut
-	g       *gen
-	prev    map[string]string // id -> coq term of option task
-	out     *strings.Builder
-	scrib   bool
-	okMut   int
-	nErr    int
+// target: one repository under test together with what has been observed on it
+type target struct {
+	s     *sut
+	prev  map[string]string // id -> coq term of option task
+	out   *strings.Builder
+	okMut int
+	nErr  int
 }
 
-func (rn *runner) dump() map[string]string {
+func newTarget(s *sut) *target {
+	return &target{s: s, prev: map[string]string{}, out: &strings.Builder{}}
+}
+
+type runner struct {
+	ts    []*target
+	g     *gen
+	scrib bool
+	clock *vclock.Clock
+}
+
+func (rn *runner) dump(tg *target) map[string]string {
 	ctx := context.Background()
 	d := map[string]string{}
 	for _, id := range rn.g.known {
-		t, err := rn.s.repo.GetById(ctx, id)
+		t, err := tg.s.repo.GetById(ctx, id)
 		if err != nil {
 			if def.IsIdNotFound(err) {
 				d[id] = "None"
@@ -364,8 +446,8 @@ func (rn *runner) dump() map[string]string {
 	return d
 }
 
-func (rn *runner) observe(res string) string {
-	cur := rn.dump()
+func (rn *runner) observe(tg *target, res string) string {
+	cur := rn.dump(tg)
 	var diffs []string
 	ids := make([]string, 0, len(cur))
 	for id := range cur {
@@ -373,16 +455,16 @@ func (rn *runner) observe(res string) string {
 	}
 	sort.Strings(ids)
 	for _, id := range ids {
-		if rn.prev[id] != cur[id] {
-			if _, had := rn.prev[id]; !had && cur[id] == "None" {
+		if tg.prev[id] != cur[id] {
+			if _, had := tg.prev[id]; !had && cur[id] == "None" {
 				continue
 			}
 			diffs = append(diffs, "("+cq.Str(id)+","+cur[id]+")")
 		}
 	}
-	rn.prev = cur
+	tg.prev = cur
 	next := "None"
-	t, err := rn.s.repo.GetNext(context.Background())
+	t, err := tg.s.repo.GetNext(context.Background())
 	if err == nil {
 		next = "(Some " + cq.Str(t.Id) + ")"
 		if rn.scrib {
@@ -394,16 +476,16 @@ func (rn *runner) observe(res string) string {
 	return "(mkObs " + res + " [" + strings.Join(diffs, ";") + "] " + next + ")"
 }
 
-func (rn *runner) emit(op, res string) {
+func (rn *runner) emit(tg *target, op, res string) {
 	if strings.HasPrefix(res, "(RErr ") {
-		rn.nErr++
+		tg.nErr++
 	} else if !strings.HasPrefix(op, "OGet") && !strings.HasPrefix(op, "OFind") && !strings.HasPrefix(op, "ONext") {
-		rn.okMut++
+		tg.okMut++
 	}
-	if rn.out.Len() > 0 {
-		rn.out.WriteString(";\n  ")
+	if tg.out.Len() > 0 {
+		tg.out.WriteString(";\n  ")
 	}
-	rn.out.WriteString("(" + op + ", " + rn.observe(res) + ")")
+	tg.out.WriteString("(" + op + ", " + rn.observe(tg, res) + ")")
 }
 
 func ctxFor(cancelled bool) context.Context {
@@ -419,53 +501,71 @@ func (rn *runner) stat(k string) { rn.g.stats[k]++ }
 
 func resKind(res string) string {
 	if strings.HasPrefix(res, "(RErr ") {
-		return "err:" + strings.TrimSuffix(strings.TrimPrefix(res, "(RErr "), ")")
+		r := strings.TrimPrefix(res, "(RErr ")
+		if i := strings.Index(r, ")"); i >= 0 {
+			r = r[:i]
+		}
+		return "err:" + r
 	}
 	return "ok"
+}
+
+func cloneParam(p def.TaskUpdateParam) def.TaskUpdateParam { return p.Clone() }
+
+func taskRes(t def.Task, err error) string {
+	if err != nil {
+		return cq.Err(err, isCtxErr)
+	}
+	return "(RTask " + cq.Task(t) + ")"
 }
 
 func (rn *runner) doAdd() {
 	g := rn.g
 	cancelled := g.r.Intn(20) == 0
 	now := g.tick()
-	rn.s.clock.Set(now)
+	rn.clock.Set(now)
 	p := g.genUParam(true)
-	fresh := fmt.Sprintf("t%d", *rn.s.idCtr+1)
+	fresh := fmt.Sprintf("t%d", *rn.ts[0].s.idCtr+1)
 	opTerm := "OAdd " + cq.Bool(cancelled) + " " + cq.Time(now) + " " + cq.Str(fresh) + " " + cq.UParam(p)
-	t, err := rn.s.repo.AddTask(ctxFor(cancelled), p)
-	var res string
-	if err != nil {
-		res = cq.Err(err, isCtxErr)
-	} else {
-		res = "(RTask " + cq.Task(t) + ")"
-		g.known = append(g.known, t.Id)
-		if rn.scrib {
-			scribbleTask(t)
+	added := ""
+	for _, tg := range rn.ts {
+		pp := cloneParam(p)
+		t, err := tg.s.repo.AddTask(ctxFor(cancelled), pp)
+		res := taskRes(t, err)
+		if err == nil {
+			added = t.Id
+			if rn.scrib {
+				scribbleTask(t)
+			}
 		}
+		if rn.scrib {
+			scribbleParam(pp)
+		}
+		if tg == rn.ts[0] {
+			rn.stat("op:add:" + resKind(res))
+			if added != "" {
+				g.known = append(g.known, added)
+			}
+		}
+		rn.emit(tg, opTerm, res)
 	}
-	if rn.scrib {
-		scribbleParam(p)
-	}
-	rn.stat("op:add:" + resKind(res))
-	rn.emit(opTerm, res)
 }
 
 func (rn *runner) doGet() {
 	g := rn.g
 	cancelled := g.r.Intn(20) == 0
 	id := g.genId()
-	t, err := rn.s.repo.GetById(ctxFor(cancelled), id)
-	var res string
-	if err != nil {
-		res = cq.Err(err, isCtxErr)
-	} else {
-		res = "(RTask " + cq.Task(t) + ")"
-		if rn.scrib {
+	for _, tg := range rn.ts {
+		t, err := tg.s.repo.GetById(ctxFor(cancelled), id)
+		res := taskRes(t, err)
+		if err == nil && rn.scrib {
 			scribbleTask(t)
 		}
+		if tg == rn.ts[0] {
+			rn.stat("op:get:" + resKind(res))
+		}
+		rn.emit(tg, "OGet "+cq.Bool(cancelled)+" "+cq.Str(id), res)
 	}
-	rn.stat("op:get:" + resKind(res))
-	rn.emit("OGet "+cq.Bool(cancelled)+" "+cq.Str(id), res)
 }
 
 func (rn *runner) doUpdate() {
@@ -477,13 +577,18 @@ func (rn *runner) doUpdate() {
 		p = def.TaskUpdateParam{}
 	}
 	opTerm := "OUpdate " + cq.Bool(cancelled) + " " + cq.Str(id) + " " + cq.UParam(p)
-	err := rn.s.repo.UpdateById(ctxFor(cancelled), id, p)
-	res := cq.Err(err, isCtxErr)
-	if rn.scrib {
-		scribbleParam(p)
+	for _, tg := range rn.ts {
+		pp := cloneParam(p)
+		err := tg.s.repo.UpdateById(ctxFor(cancelled), id, pp)
+		res := cq.Err(err, isCtxErr)
+		if rn.scrib {
+			scribbleParam(pp)
+		}
+		if tg == rn.ts[0] {
+			rn.stat("op:update:" + resKind(res))
+		}
+		rn.emit(tg, opTerm, res)
 	}
-	rn.stat("op:update:" + resKind(res))
-	rn.emit(opTerm, res)
 }
 
 func (rn *runner) doSimple(kind string) {
@@ -491,30 +596,34 @@ func (rn *runner) doSimple(kind string) {
 	cancelled := g.r.Intn(20) == 0
 	id := g.genId()
 	now := g.tick()
-	rn.s.clock.Set(now)
-	var err error
-	var opTerm string
-	switch kind {
-	case "cancel":
-		opTerm = "OCancel " + cq.Bool(cancelled) + " " + cq.Time(now) + " " + cq.Str(id)
-		err = rn.s.repo.Cancel(ctxFor(cancelled), id)
-	case "dispatch":
-		opTerm = "ODispatch " + cq.Bool(cancelled) + " " + cq.Time(now) + " " + cq.Str(id)
-		err = rn.s.repo.MarkAsDispatched(ctxFor(cancelled), id)
-	case "done":
-		var e error
-		es := "None"
-		if g.r.Intn(2) == 0 {
-			txt := g.pick([]string{"boom", "e1", ""})
-			e = errors.New(txt)
-			es = "(Some " + cq.Str(txt) + ")"
-		}
-		opTerm = "ODone " + cq.Bool(cancelled) + " " + cq.Time(now) + " " + cq.Str(id) + " " + es
-		err = rn.s.repo.MarkAsDone(ctxFor(cancelled), id, e)
+	rn.clock.Set(now)
+	var e error
+	es := "None"
+	if kind == "done" && g.r.Intn(2) == 0 {
+		txt := g.pick([]string{"boom", "e1", ""})
+		e = errors.New(txt)
+		es = "(Some " + cq.Str(txt) + ")"
 	}
-	res := cq.Err(err, isCtxErr)
-	rn.stat("op:" + kind + ":" + resKind(res))
-	rn.emit(opTerm, res)
+	for _, tg := range rn.ts {
+		var err error
+		var opTerm string
+		switch kind {
+		case "cancel":
+			opTerm = "OCancel " + cq.Bool(cancelled) + " " + cq.Time(now) + " " + cq.Str(id)
+			err = tg.s.repo.Cancel(ctxFor(cancelled), id)
+		case "dispatch":
+			opTerm = "ODispatch " + cq.Bool(cancelled) + " " + cq.Time(now) + " " + cq.Str(id)
+			err = tg.s.repo.MarkAsDispatched(ctxFor(cancelled), id)
+		case "done":
+			opTerm = "ODone " + cq.Bool(cancelled) + " " + cq.Time(now) + " " + cq.Str(id) + " " + es
+			err = tg.s.repo.MarkAsDone(ctxFor(cancelled), id, e)
+		}
+		res := cq.Err(err, isCtxErr)
+		if tg == rn.ts[0] {
+			rn.stat("op:" + kind + ":" + resKind(res))
+		}
+		rn.emit(tg, opTerm, res)
+	}
 }
 
 func (rn *runner) doFind(rich bool) {
@@ -531,85 +640,131 @@ func (rn *runner) doFind(rich bool) {
 		limit = 1 + g.r.Intn(n+1)
 	}
 	opTerm := "OFind " + cq.Bool(cancelled) + " " + cq.Query(q) + " " + cq.Int(offset) + " " + cq.Int(limit)
-	ts, err := rn.s.repo.Find(ctxFor(cancelled), q, offset, limit)
-	var res string
-	if err != nil {
-		res = cq.Err(err, isCtxErr)
-		if res == "(RErr EOther)" {
-			res += " (* " + strings.ReplaceAll(err.Error(), "*)", "* )") + " *)"
-		}
-	} else {
-		res = "(RTasks " + cq.Tasks(ts) + ")"
-		if rn.scrib {
-			for _, t := range ts {
-				scribbleTask(t)
+	for _, tg := range rn.ts {
+		ts, err := tg.s.repo.Find(ctxFor(cancelled), q.Clone(), offset, limit)
+		var res string
+		if err != nil {
+			res = cq.Err(err, isCtxErr)
+			if res == "(RErr EOther)" {
+				res += " (* " + strings.ReplaceAll(err.Error(), "*)", "* )") + " *)"
+			}
+		} else {
+			res = "(RTasks " + cq.Tasks(ts) + ")"
+			if rn.scrib {
+				for _, t := range ts {
+					scribbleTask(t)
+				}
+			}
+			if tg == rn.ts[0] && len(ts) > 0 && len(ts) < n {
+				rn.stat("find:proper-subset")
 			}
 		}
-		if len(ts) > 0 && len(ts) < n {
-			rn.stat("find:proper-subset")
+		if tg == rn.ts[0] {
+			rn.stat("op:find:" + resKind(res))
 		}
+		rn.emit(tg, opTerm, res)
 	}
-	rn.stat("op:find:" + resKind(res))
-	rn.emit(opTerm, res)
 }
 
 func (rn *runner) doNext() {
 	g := rn.g
 	cancelled := g.r.Intn(25) == 0
-	t, err := rn.s.repo.GetNext(ctxFor(cancelled))
-	var res string
-	if err != nil {
-		res = cq.Err(err, isCtxErr)
-	} else {
-		res = "(RTask " + cq.Task(t) + ")"
-		if rn.scrib {
+	for _, tg := range rn.ts {
+		t, err := tg.s.repo.GetNext(ctxFor(cancelled))
+		res := taskRes(t, err)
+		if err == nil && rn.scrib {
 			scribbleTask(t)
 		}
+		if tg == rn.ts[0] {
+			rn.stat("op:next:" + resKind(res))
+		}
+		rn.emit(tg, "ONext "+cq.Bool(cancelled), res)
 	}
-	rn.stat("op:next:" + resKind(res))
-	rn.emit("ONext "+cq.Bool(cancelled), res)
 }
 
 func (rn *runner) doEntAdmin(kind string) {
 	g := rn.g
 	ctx := context.Background()
-	var err error
-	var opTerm string
-	switch kind {
-	case "revert":
-		opTerm = "ORevert"
-		err = rn.s.ent.RevertDispatched(ctx)
-	case "canceldisp":
-		now := g.tick()
-		rn.s.clock.Set(now)
-		opTerm = "OCancelDispatched " + cq.Time(now)
-		err = rn.s.ent.CancelDispatched(ctx)
-	case "delete":
-		opTerm = "ODeleteEnded"
-		err = rn.s.ent.DeleteEnded(ctx, false, 0)
+	now := g.tick()
+	rn.clock.Set(now)
+	for _, tg := range rn.ts {
+		var err error
+		var opTerm string
+		switch kind {
+		case "revert":
+			opTerm = "ORevert"
+			err = tg.s.ent.RevertDispatched(ctx)
+		case "canceldisp":
+			opTerm = "OCancelDispatched " + cq.Time(now)
+			err = tg.s.ent.CancelDispatched(ctx)
+		case "delete":
+			opTerm = "ODeleteEnded"
+			err = tg.s.ent.DeleteEnded(ctx, false, 0)
+		}
+		res := cq.Err(err, isCtxErr)
+		rn.stat("op:" + kind + ":" + resKind(res))
+		rn.emit(tg, opTerm, res)
 	}
-	res := cq.Err(err, isCtxErr)
-	rn.stat("op:" + kind + ":" + resKind(res))
-	rn.emit(opTerm, res)
 }
 
 // drain: repeatedly GetNext + Cancel/Dispatch of the head until exhausted (makes heap damage observable)
 func (rn *runner) drain() {
 	for i := 0; i < 64; i++ {
-		t, err := rn.s.repo.GetNext(context.Background())
-		if err != nil {
-			rn.emit("ONext false", cq.Err(err, isCtxErr))
+		now := rn.g.tick()
+		rn.clock.Set(now)
+		cancel := rn.g.r.Intn(2) == 0
+		done := false
+		for _, tg := range rn.ts {
+			t, err := tg.s.repo.GetNext(context.Background())
+			rn.emit(tg, "ONext false", taskRes(t, err))
+			if err != nil {
+				done = true
+				continue
+			}
+			if cancel {
+				rn.emit(tg, "OCancel false "+cq.Time(now)+" "+cq.Str(t.Id), cq.Err(tg.s.repo.Cancel(context.Background(), t.Id), isCtxErr))
+			} else {
+				rn.emit(tg, "ODispatch false "+cq.Time(now)+" "+cq.Str(t.Id), cq.Err(tg.s.repo.MarkAsDispatched(context.Background(), t.Id), isCtxErr))
+			}
+		}
+		if done {
 			return
 		}
-		rn.emit("ONext false", "(RTask "+cq.Task(t)+")")
-		now := rn.g.tick()
-		rn.s.clock.Set(now)
-		if rn.g.r.Intn(2) == 0 {
-			rn.emit("OCancel false "+cq.Time(now)+" "+cq.Str(t.Id), cq.Err(rn.s.repo.Cancel(context.Background(), t.Id), isCtxErr))
-		} else {
-			rn.emit("ODispatch false "+cq.Time(now)+" "+cq.Str(t.Id), cq.Err(rn.s.repo.MarkAsDispatched(context.Background(), t.Id), isCtxErr))
-		}
 	}
+}
+
+// ---------- snapshots (C14) ----------
+
+func kvTerm(kv []inmemory.KeyValue) string {
+	ts := make([]def.Task, len(kv))
+	for i, p := range kv {
+		ts[i] = p.Value
+	}
+	return "OLoad " + cq.Tasks(ts)
+}
+
+// loadInvalid: offer a snapshot containing one invalid task to the (only) target; it must be refused.
+func (rn *runner) loadInvalid() {
+	tg := rn.ts[0]
+	kv := tg.s.inmem.Save()
+	bad := def.Task{Id: "bad", WorkId: "w", State: def.TaskScheduled, ScheduledAt: cq.Epoch.Add(time.Minute), CreatedAt: cq.Epoch.Add(time.Second)}
+	switch rn.g.r.Intn(5) {
+	case 0:
+		bad.Id = ""
+	case 1:
+		bad.WorkId = ""
+	case 2:
+		bad.State = "bogus"
+	case 3:
+		bad.ScheduledAt = time.Time{}
+	case 4:
+		bad.CreatedAt = time.Time{}
+	}
+	pos := rn.g.r.Intn(len(kv) + 1)
+	kv2 := append(append(append([]inmemory.KeyValue{}, kv[:pos]...), inmemory.KeyValue{Key: "bad", Value: bad}), kv[pos:]...)
+	err := tg.s.inmem.Load(kv2)
+	rn.stat("op:load-invalid:" + resKind(cq.Err(err, isCtxErr)))
+	rn.emit(tg, kvTerm(kv2), cq.Err(err, isCtxErr))
 }
 
 type weights struct{ add, get, update, cancel, dispatch, done, find, next, revert, canceldisp, delete int }
@@ -664,12 +819,13 @@ func (rn *runner) history(n int, w weights, rich bool) {
 func repoMain(args []string) {
 	fs := flag.NewFlagSet("repo", flag.ExitOnError)
 	impl := fs.String("impl", "inmem", "inmem|ent")
-	mode := fs.String("mode", "c01", "generator bias: c01 c02 c11 c12 c13 c19")
+	mode := fs.String("mode", "c01", "generator bias: c01 c02 c11 c13 c14")
 	seed := fs.Int64("seed", 1, "PRNG seed")
 	n := fs.Int("n", 100, "number of histories")
 	length := fs.Int("len", 40, "operations per history")
 	out := fs.String("out", "", "output .v file (cases)")
 	statsOut := fs.String("stats", "", "output stats json")
+	quoteKeys := fs.Bool("quotekeys", false, "adversarial map keys with quotes and brackets")
 	scribble := fs.Bool("scribble", false, "overwrite every map reachable from arguments and results after each call (C19)")
 	dbfile := fs.String("dbfile", "", "sqlite file dsn prefix (thorough: file-backed)")
 	_ = fs.Parse(args)
@@ -680,7 +836,11 @@ func repoMain(args []string) {
 	var samples []string
 	var b strings.Builder
 	b.WriteString("From GK Require Import PropCheck.\nOpen Scope string_scope.\nOpen Scope Z_scope.\n")
-	b.WriteString("Definition cases : list hist := [\n")
+	if *mode == "c14" {
+		b.WriteString("Definition cases : list snapcase := [\n")
+	} else {
+		b.WriteString("Definition cases : list hist := [\n")
+	}
 	for h := 0; h < *n; h++ {
 		clock := vclock.New(cq.Epoch)
 		idCtr := 0
@@ -692,19 +852,66 @@ func repoMain(args []string) {
 		g := &gen{r: r, cfg: genCfg{mode: *mode, monotone: r.Intn(3) != 0, scribble: *scribble, adversary: *mode == "c11" && r.Intn(2) == 0}, now: cq.Epoch, stats: stats}
 		if *mode == "c11" {
 			g.cfg.monotone = true
+			g.cfg.quoteKeys = *quoteKeys
+			if *quoteKeys {
+				g.cfg.adversary = true
+			}
 		}
-		var hb strings.Builder
-		rn := &runner{s: s, g: g, prev: map[string]string{}, out: &hb, scrib: *scribble}
-		rn.history(*length, weightsFor(*mode, *impl), *mode == "c11" || r.Intn(3) == 0)
-		if *mode == "c02" || r.Intn(4) == 0 {
+		tgA := newTarget(s)
+		rn := &runner{ts: []*target{tgA}, g: g, scrib: *scribble, clock: clock}
+		w := weightsFor(*mode, *impl)
+		rich := *mode == "c11" || r.Intn(3) == 0
+		var text string
+		if *mode == "c14" {
+			n1 := *length / 2
+			rn.history(n1, w, rich)
+			if r.Intn(2) == 0 {
+				rn.loadInvalid()
+			}
+			kv := s.inmem.Save()
+			if r.Intn(2) == 0 {
+				js, err := json.Marshal(kv)
+				if err != nil {
+					panic(err)
+				}
+				kv = nil
+				if err := json.Unmarshal(js, &kv); err != nil {
+					panic(err)
+				}
+				stats["snap:json-roundtrip"]++
+			}
+			pre := tgA.out.String()
+			tgA.out = &strings.Builder{}
+			idCtrB := idCtr
+			sB := newSut("inmem", clock, &idCtrB, "")
+			if err := sB.inmem.Load(kv); err != nil {
+				panic(err)
+			}
+			tgB := newTarget(sB)
+			for k, v := range tgA.prev {
+				tgB.prev[k] = v
+			}
+			rn.ts = []*target{tgA, tgB}
+			rn.history(*length-n1, weightsFor("c02", "inmem"), rich)
 			rn.drain()
+			text = " (mkSnap [" + pre + "]\n [" + tgA.out.String() + "]\n [" + tgB.out.String() + "])"
+			tgA.out = &strings.Builder{}
+			tgA.out.WriteString(text)
+		} else {
+			rn.history(*length, w, rich)
+			if *mode == "c02" || r.Intn(4) == 0 {
+				rn.drain()
+			}
+			text = " [" + tgA.out.String() + "]"
 		}
-		s.closer()
-		if rn.okMut > 0 && rn.nErr > 0 {
-			hashes = append(hashes, shortHash(hb.String()))
+		for _, tg := range rn.ts {
+			tg.s.closer()
+		}
+		if tgA.okMut > 0 && tgA.nErr > 0 {
+			hashes = append(hashes, shortHash(text))
 		}
 		if h == 0 {
-			smp := hb.String()
+			smp := text
 			if len(smp) > 1500 {
 				smp = smp[:1500] + " ..."
 			}
@@ -713,7 +920,7 @@ func repoMain(args []string) {
 		if h > 0 {
 			b.WriteString(";\n")
 		}
-		b.WriteString(" [" + hb.String() + "]")
+		b.WriteString(text)
 		if g.cfg.monotone {
 			stats["hist:monotone-clock"]++
 		}
@@ -725,7 +932,6 @@ func repoMain(args []string) {
 		panic(err)
 	}
 	writeStats(*statsOut, stats, hashes, samples)
-	_ = time.Now
 }
 
 func shortHash(s string) string {
